@@ -14,5 +14,17 @@ pub mod layout {
 //@include air/layout_mod.rs
 //@iffeature recursive
 //@include air/layouts/recursive.rs
+//@iffeature light_dex
+//@include air/layouts/dex_light.rs
+//@iffeature light_dynamic
+//@include air/layouts/dynamic_light.rs
+//@iffeature light_recursive_with_poseidon
+//@include air/layouts/recursive_with_poseidon_light.rs
+//@iffeature light_small
+//@include air/layouts/small_light.rs
+//@iffeature light_starknet
+//@include air/layouts/starknet_light.rs
+//@iffeature light_starknet_with_keccak
+//@include air/layouts/starknet_with_keccak_light.rs
 } // mod layout
 } // mod swiftness_air
